@@ -19,6 +19,7 @@ func init() {
 			{ID: "C12-R4", Doc: "reading a task without output is an error", Run: c12r4},
 			{ID: "C12-R5", Doc: "scan order", Run: c12r5},
 			{ID: "C12-R6", Doc: "shared combiners are not discarded", Run: c12r6},
+			{ID: "C12-R7", Doc: "a Result from an invocation the executor has not seen does not crash the driver", Run: c12r7},
 			{ID: "C08-R2", Doc: "re-shuffle tasks of a reused result get names minted by the namer, so two re-shuffles of one result never share a task name (shared)", Run: c08r2},
 			{ID: "C16-R5", Doc: "a worker receives the invocations behind Result arguments dependencies-first (shared)", Run: c16r5},
 			{ID: "C03-R4", Doc: "recomputation after discard/loss is not limited by earlier, recovered losses (shared)", Run: c03r4},
@@ -125,6 +126,7 @@ func c12restores(c *RC, fn *Func, start Loc, taskExpr string, depth int, report 
 
 func c12r1(c *RC) {
 	pr := c.P
+	c12workerDiscardResets(c)
 	n := 0
 	for _, fn := range pr.FuncsIn("exec") {
 		if fn.Body == nil {
@@ -600,4 +602,86 @@ func c12mayRestore(pr *Prog, cf *Func, pname string) bool {
 		return true
 	})
 	return found
+}
+
+// c12workerDiscardResets (part of C12-R1): discarding a task on a worker
+// returns the task's own combine key to its initial state, so that the
+// recomputation a later Func triggers can build its combine buffers again
+// (otherwise runCombine answers "already committed", the task is lost five
+// times and the run fails).
+func c12workerDiscardResets(c *RC) {
+	pr := c.P
+	fn := c.MustFn("exec.(*worker).Discard")
+	if fn == nil {
+		return
+	}
+	fq := fn.QName()
+	ok := false
+	ast.Inspect(fn.Body, func(n ast.Node) bool {
+		ifs, isIf := n.(*ast.IfStmt)
+		if !isIf {
+			return true
+		}
+		// condition true exactly for a task with its own (per-task) combine buffers
+		good := true
+		for _, combNil := range []bool{false, true} {
+			for _, keyEmpty := range []bool{false, true} {
+				v, known := evalCond(ifs.Cond, func(e ast.Expr) (bool, bool) {
+					if k, ok := ast.Unparen(e).(*ast.CallExpr); ok && strings.HasSuffix(expr(k.Fun), ".Combiner.IsNil") {
+						return combNil, true
+					}
+					if _, whenEq, ok := constTest(e, func(x string) bool { return strings.HasSuffix(x, ".CombineKey") }, `""`); ok {
+						return whenEq == keyEmpty, true
+					}
+					return false, false
+				})
+				if !known || v != (!combNil && keyEmpty) {
+					good = false
+				}
+			}
+		}
+		if !good {
+			return true
+		}
+		for _, st := range ifs.Body.List {
+			if a, isA := st.(*ast.AssignStmt); isA && len(a.Lhs) == 1 && len(a.Rhs) == 1 && expr(a.Rhs[0]) == "combinerNone" {
+				if ix, isIx := a.Lhs[0].(*ast.IndexExpr); isIx {
+					if sel, isSel := ix.X.(*ast.SelectorExpr); isSel && pr.fieldQName(fn.Pkg.FieldOf(sel)) == "exec.worker.combinerStates" {
+						ok = true
+					}
+				}
+			}
+		}
+		return true
+	})
+	c.Check(ok, fq+"|combine-key-returns-to-its-initial-state", pr.Pos(fn.Body.Pos()),
+		"discarding a task with its own combine buffers no longer resets the task's combine key on the worker: when a later Func recomputes the discarded task on the same machine, runCombine finds the key already committed, the task is lost again and again, and the run fails instead of recomputing")
+}
+
+// c12r7: using a Result as an argument never crashes the driver.
+//
+// (*bigmachineExecutor).addInvocation replaces every *Result argument by a
+// reference to the invocation that produced it.  It knows only invocations
+// that some task it has run belonged to, and panics on any other.  A Func that
+// returns (a Prefixed view of) one of its Result arguments yields a Result
+// whose invocation never owned a task, so the next Func that takes it as an
+// argument brings the driver process down.
+func c12r7(c *RC) {
+	pr := c.P
+	fn := c.MustFn("exec.(*bigmachineExecutor).addInvocation")
+	if fn == nil {
+		return
+	}
+	var pan []*ast.CallExpr
+	for _, k := range callsIn(fn.Body) {
+		if !fn.Pkg.mayReturn(k) {
+			pan = append(pan, k)
+		}
+	}
+	pos := pr.Pos(fn.Body.Pos())
+	if len(pan) > 0 {
+		pos = pr.Pos(pan[0].Pos())
+	}
+	c.Check(len(pan) == 0, fn.QName()+"|result-of-unknown-invocation-does-not-panic", pos,
+		"addInvocation panics when a *Result argument comes from an invocation it has not seen; a Func that returns one of its Result arguments (or a Prefixed view of it) produces exactly such a Result, and the next Func that is given it crashes the driver instead of running or failing with an error")
 }
